@@ -579,6 +579,474 @@ fn naive_get_address(c: &Cfg, sec: &[u8], base: u64, idx: u64) -> Option<u64> {
     Some(v)
 }
 
+
+// ---------- units: `lists-die` ----------
+
+#[derive(Clone, Copy, PartialEq, Eq, Debug)]
+enum AName {
+    Low,
+    High,
+    Ranges,
+    Loc,
+    ABase,
+    GABase,
+    RBase,
+    GRBase,
+    LBase,
+    Other,
+}
+
+#[derive(Clone, Copy, PartialEq, Eq, Debug)]
+enum AVal {
+    Addr(u64),
+    Addrx(u64),
+    Udata(u64),
+    Sec(u64),
+    Listx(u64),
+    Other,
+}
+
+fn parse_attrs(s: &str) -> Option<Vec<(AName, AVal)>> {
+    if s == "-" {
+        return Some(vec![]);
+    }
+    s.split(',')
+        .map(|t| {
+            let (n, v) = t.split_once('=')?;
+            let n = match n {
+                "low" => AName::Low,
+                "high" => AName::High,
+                "ranges" => AName::Ranges,
+                "loc" => AName::Loc,
+                "abase" => AName::ABase,
+                "gabase" => AName::GABase,
+                "rbase" => AName::RBase,
+                "grbase" => AName::GRBase,
+                "lbase" => AName::LBase,
+                "other" => AName::Other,
+                _ => return None,
+            };
+            let num = |v: &str| -> Option<u64> { v[1..].parse().ok() };
+            let v = match v.as_bytes().first()? {
+                b'o' if v.len() == 1 => AVal::Other,
+                b'a' => AVal::Addr(num(v)?),
+                b'x' => AVal::Addrx(num(v)?),
+                b'u' => AVal::Udata(num(v)?),
+                b'r' => AVal::Sec(num(v)?),
+                b'i' => AVal::Listx(num(v)?),
+                _ => return None,
+            };
+            Some((n, v))
+        })
+        .collect()
+}
+
+fn attrs_text(a: &[(AName, AVal)]) -> String {
+    if a.is_empty() {
+        return "-".into();
+    }
+    a.iter()
+        .map(|(n, v)| {
+            let n = match n {
+                AName::Low => "low",
+                AName::High => "high",
+                AName::Ranges => "ranges",
+                AName::Loc => "loc",
+                AName::ABase => "abase",
+                AName::GABase => "gabase",
+                AName::RBase => "rbase",
+                AName::GRBase => "grbase",
+                AName::LBase => "lbase",
+                AName::Other => "other",
+            };
+            let v = match v {
+                AVal::Addr(x) => format!("a{x}"),
+                AVal::Addrx(x) => format!("x{x}"),
+                AVal::Udata(x) => format!("u{x}"),
+                AVal::Sec(x) => format!("r{x}"),
+                AVal::Listx(x) => format!("i{x}"),
+                AVal::Other => "o".into(),
+            };
+            format!("{n}={v}")
+        })
+        .collect::<Vec<_>>()
+        .join(",")
+}
+
+const DW_FORM_ADDR: u64 = 0x01;
+const DW_FORM_DATA2: u64 = 0x05;
+const DW_FORM_DATA4: u64 = 0x06;
+const DW_FORM_DATA8: u64 = 0x07;
+const DW_FORM_DATA1: u64 = 0x0b;
+const DW_FORM_SDATA: u64 = 0x0d;
+const DW_FORM_UDATA: u64 = 0x0f;
+const DW_FORM_SEC_OFFSET: u64 = 0x17;
+const DW_FORM_FLAG_PRESENT: u64 = 0x19;
+const DW_FORM_ADDRX: u64 = 0x1b;
+const DW_FORM_LOCLISTX: u64 = 0x22;
+const DW_FORM_RNGLISTX: u64 = 0x23;
+const DW_FORM_ADDRX1: u64 = 0x29;
+const DW_FORM_ADDRX2: u64 = 0x2a;
+const DW_FORM_ADDRX4: u64 = 0x2c;
+const DW_FORM_GNU_ADDR_INDEX: u64 = 0x1f01;
+
+fn at_code(n: AName) -> u64 {
+    match n {
+        AName::Low => 0x11,
+        AName::High => 0x12,
+        AName::Ranges => 0x55,
+        AName::Loc => 0x02,
+        AName::ABase => 0x73,
+        AName::GABase => 0x2133,
+        AName::RBase => 0x74,
+        AName::GRBase => 0x2132,
+        AName::LBase => 0x8c,
+        AName::Other => 0x3a, // DW_AT_decl_file
+    }
+}
+
+/// choose a form whose normalised value (`Attribute::value()`) is the abstract value; the choice
+/// among equivalent forms is a deterministic function of the value; `None` = cannot be encoded
+fn put_attr(c: &Cfg, n: AName, v: AVal, spec: &mut Vec<u8>, val: &mut Vec<u8>) -> Option<()> {
+    let s = c.enc.address_size;
+    let word: usize = if c.enc.format == Format::Dwarf64 { 8 } else { 4 };
+    let form;
+    match v {
+        AVal::Addr(a) => {
+            if !fits(a, s) {
+                return None;
+            }
+            form = DW_FORM_ADDR;
+            put_uint(val, c.big, s as usize, a);
+        }
+        AVal::Addrx(i) => match i % 5 {
+            0 if i < 0x100 => {
+                form = DW_FORM_ADDRX1;
+                val.push(i as u8);
+            }
+            1 if i < 0x1_0000 => {
+                form = DW_FORM_ADDRX2;
+                put_uint(val, c.big, 2, i);
+            }
+            2 if i < 0x1_0000_0000 => {
+                form = DW_FORM_ADDRX4;
+                put_uint(val, c.big, 4, i);
+            }
+            3 => {
+                form = DW_FORM_GNU_ADDR_INDEX;
+                put_uleb(val, i);
+            }
+            _ => {
+                form = DW_FORM_ADDRX;
+                put_uleb(val, i);
+            }
+        },
+        AVal::Udata(x) => {
+            // data4/data8 would be read as a section offset for DW_AT_ranges / DW_AT_location
+            let plain = n == AName::Ranges || n == AName::Loc;
+            match x % 6 {
+                0 if x < 0x100 && !plain => {
+                    form = DW_FORM_DATA1;
+                    val.push(x as u8);
+                }
+                1 if x < 0x1_0000 && !plain => {
+                    form = DW_FORM_DATA2;
+                    put_uint(val, c.big, 2, x);
+                }
+                2 if x < 0x1_0000_0000 && !plain => {
+                    form = DW_FORM_DATA4;
+                    put_uint(val, c.big, 4, x);
+                }
+                3 if !plain => {
+                    form = DW_FORM_DATA8;
+                    put_uint(val, c.big, 8, x);
+                }
+                4 if x <= i64::MAX as u64 && n == AName::High => {
+                    // non-negative DW_FORM_sdata counts as an unsigned constant
+                    form = DW_FORM_SDATA;
+                    put_uleb(val, x); // positive sleb = uleb plus a sign-clearing byte
+                    let last = *val.last().unwrap();
+                    if last & 0x40 != 0 {
+                        *val.last_mut().unwrap() |= 0x80;
+                        val.push(0);
+                    }
+                }
+                _ => {
+                    form = DW_FORM_UDATA;
+                    put_uleb(val, x);
+                }
+            }
+        }
+        AVal::Sec(o) => {
+            if word == 4 && o > 0xffff_ffff {
+                return None;
+            }
+            // DWARF 2/3 wrote section offsets as data4 / data8
+            if (n == AName::Ranges || n == AName::Loc) && c.enc.version <= 3 {
+                form = if word == 4 { DW_FORM_DATA4 } else { DW_FORM_DATA8 };
+            } else {
+                form = DW_FORM_SEC_OFFSET;
+            }
+            put_uint(val, c.big, word, o);
+        }
+        AVal::Listx(i) => {
+            form = if n == AName::Loc { DW_FORM_LOCLISTX } else { DW_FORM_RNGLISTX };
+            put_uleb(val, i);
+        }
+        AVal::Other => {
+            form = DW_FORM_FLAG_PRESENT;
+        }
+    }
+    put_uleb(spec, at_code(n));
+    put_uleb(spec, form);
+    Some(())
+}
+
+/// (.debug_abbrev, .debug_info): a compile unit DIE with the `root` attributes and one child
+/// (DW_TAG_subprogram) with the `die` attributes
+fn build_unit(c: &Cfg, dwo: bool, root: &[(AName, AVal)], die: &[(AName, AVal)]) -> Option<(Vec<u8>, Vec<u8>)> {
+    let mut abbrev = Vec::new();
+    let mut dies = Vec::new();
+    // abbrev 1: DW_TAG_compile_unit, has children
+    put_uleb(&mut abbrev, 1);
+    put_uleb(&mut abbrev, 0x11);
+    abbrev.push(1);
+    put_uleb(&mut dies, 1);
+    for (n, v) in root {
+        put_attr(c, *n, *v, &mut abbrev, &mut dies)?;
+    }
+    abbrev.extend_from_slice(&[0, 0]);
+    // abbrev 2: DW_TAG_subprogram, no children
+    put_uleb(&mut abbrev, 2);
+    put_uleb(&mut abbrev, 0x2e);
+    abbrev.push(0);
+    put_uleb(&mut dies, 2);
+    for (n, v) in die {
+        put_attr(c, *n, *v, &mut abbrev, &mut dies)?;
+    }
+    abbrev.extend_from_slice(&[0, 0]);
+    abbrev.push(0);
+    dies.push(0); // end of the root's children
+    let word: usize = if c.enc.format == Format::Dwarf64 { 8 } else { 4 };
+    let mut hdr = Vec::new();
+    put_uint(&mut hdr, c.big, 2, c.enc.version as u64);
+    if c.enc.version >= 5 {
+        hdr.push(if dwo { 0x05 } else { 0x01 });
+        hdr.push(c.enc.address_size);
+        put_uint(&mut hdr, c.big, word, 0);
+        if dwo {
+            put_uint(&mut hdr, c.big, 8, 0x1122_3344_5566_7788);
+        }
+    } else {
+        put_uint(&mut hdr, c.big, word, 0);
+        hdr.push(c.enc.address_size);
+    }
+    let mut info = Vec::new();
+    let len = (hdr.len() + dies.len()) as u64;
+    if word == 8 {
+        put_uint(&mut info, c.big, 4, 0xffff_ffff);
+        put_uint(&mut info, c.big, 8, len);
+    } else {
+        put_uint(&mut info, c.big, 4, len);
+    }
+    info.extend_from_slice(&hdr);
+    info.extend_from_slice(&dies);
+    Some((abbrev, info))
+}
+
+struct DieSecs<'a> {
+    addr: &'a [u8],
+    ranges: &'a [u8],
+    rnglists: &'a [u8],
+    loc: &'a [u8],
+    loclists: &'a [u8],
+}
+
+/// the standard's reading of a DIE's address attributes, naively (u128, address table by
+/// position). `None`: not well-formed enough for the standard to define a result.
+/// `Some(Err(offset))`: the ranges are the list at `offset`; `Some(Ok(r))`: the single range.
+fn naive_die(c: &Cfg, dwo: bool, ub: (u64, u64, u64), secs: &DieSecs, attrs: &[(AName, AVal)]) -> Option<Result<Option<(u64, u64)>, u64>> {
+    let (_low_pc, abase, rbase) = ub;
+    let address = |v: &AVal| -> Option<u64> {
+        match v {
+            AVal::Addr(a) => Some(*a),
+            AVal::Addrx(i) => naive_get_address(c, secs.addr, abase, *i),
+            _ => None,
+        }
+    };
+    // DW_AT_ranges wins
+    for (n, v) in attrs {
+        if *n == AName::Ranges {
+            return match v {
+                AVal::Sec(o) => Some(Err(if dwo && c.enc.version < 5 { (*o as u128 + rbase as u128) as u64 } else { *o })),
+                AVal::Listx(i) => naive_get_offset(c, secs.rnglists, rbase, *i).map(Err),
+                _ => None,
+            };
+        }
+    }
+    let lows: Vec<&AVal> = attrs.iter().filter(|(n, _)| *n == AName::Low).map(|(_, v)| v).collect();
+    let highs: Vec<&AVal> = attrs.iter().filter(|(n, _)| *n == AName::High).map(|(_, v)| v).collect();
+    if lows.len() > 1 || highs.len() > 1 {
+        return None;
+    }
+    let low = match lows.first() {
+        None => {
+            // without a low_pc there is no contiguous range (a high_pc alone must still be readable)
+            if let Some(h) = highs.first() {
+                if !matches!(h, AVal::Udata(_)) {
+                    address(h)?;
+                }
+            }
+            return Some(Ok(None));
+        }
+        Some(v) => address(v)?,
+    };
+    match highs.first() {
+        None => Some(Ok(None)),
+        Some(AVal::Udata(sz)) => {
+            let e = low as u128 + *sz as u128;
+            if e > u64::MAX as u128 { None } else { Some(Ok(Some((low, e as u64)))) }
+        }
+        Some(v) => Some(Ok(Some((low, address(v)?)))),
+    }
+}
+
+fn lists_die(c: &Cfg, dwo: bool, root: &[(AName, AVal)], die: &[(AName, AVal)], secs: &DieSecs) -> Option<String> {
+    use gimli::read::Dwarf;
+    use gimli::DwarfFileType;
+    use gimli::SectionId;
+    let (abbrev, info) = build_unit(c, dwo, root, die)?;
+    let e = c.endian();
+    let mut dwarf: Dwarf<R> = Dwarf::load(|id| -> Result<R, ()> {
+        Ok(EndianSlice::new(
+            match id {
+                SectionId::DebugAbbrev => &abbrev[..],
+                SectionId::DebugInfo => &info[..],
+                SectionId::DebugAddr => secs.addr,
+                SectionId::DebugRanges => secs.ranges,
+                SectionId::DebugRngLists => secs.rnglists,
+                SectionId::DebugLoc => secs.loc,
+                SectionId::DebugLocLists => secs.loclists,
+                _ => &[],
+            },
+            e,
+        ))
+    })
+    .ok()?;
+    if dwo {
+        dwarf.file_type = DwarfFileType::Dwo;
+    }
+    let header = match dwarf.units().next() {
+        Ok(Some(h)) => h,
+        Ok(None) => return Some("err NoUnit".into()),
+        Err(e) => return Some(format!("err {}", rerr(&e))),
+    };
+    let unit = match dwarf.unit(header) {
+        Ok(u) => u,
+        Err(e) => return Some(format!("err {}", rerr(&e))),
+    };
+    let cap = secs.ranges.len().max(secs.rnglists.len()).max(secs.loc.len()).max(secs.loclists.len()) + 3;
+    let mut oracle: Option<String> = None;
+    let ub = (unit.low_pc, unit.addr_base.0 as u64, unit.rnglists_base.0 as u64);
+    let mut run = |which: &str, attrs: &[(AName, AVal)], r: gimli::Result<gimli::read::RangeIter<R>>| -> String {
+        let evs: Result<Result<Vec<Ev<Rangeish>>, String>, gimli::Error> = r.map(|mut it| {
+            drain(cap, || it.next()).map(|v| {
+                v.into_iter()
+                    .map(|x| match x {
+                        Ev::Item(r) => Ev::Item((r.begin, r.end, vec![])),
+                        Ev::Error(e) => Ev::Error(e),
+                    })
+                    .collect()
+            })
+        });
+        let want = naive_die(c, dwo, ub, secs, attrs);
+        let (t, evs) = render(evs, cooked_text);
+        if oracle.is_none() {
+            match (&want, &evs) {
+                (Some(Ok(single)), Some(got)) => {
+                    let w: Vec<Ev<Rangeish>> = single.iter().map(|(b, e)| Ev::Item((*b, *e, vec![]))).collect();
+                    if *got != w {
+                        oracle = Some(format!("{which}-range-differs expected={}", cooked_text(&w)));
+                    }
+                }
+                (Some(Err(off)), Some(got)) => {
+                    // the list at the standard's offset, resolved with the unit's base address
+                    let s = Secs { legacy: secs.ranges, v5: secs.rnglists };
+                    let (wt, _) = render(real_cooked(Kind::Rng, c, false, &s, *off as usize, ub.0, secs.addr, ub.1 as usize), cooked_text);
+                    if wt != format!("ok {}", cooked_text(got)) {
+                        oracle = Some(format!("{which}-list-differs expected={}", wt.replace(' ', "_")));
+                    }
+                }
+                (Some(Ok(_)), None) => oracle = Some(format!("{which}-rejected-valid {}", t.replace(' ', "_"))),
+                _ => {}
+            }
+        }
+        if oracle.is_none() {
+            if let Some(got) = &evs {
+                // third sentence of C08 on the per-entry / per-unit helpers
+                if let Some(w) = check_yield(c, got) {
+                    // without a usable DW_AT_ranges the result is the single low_pc..high_pc range
+                    let single = !attrs.iter().any(|(n, v)| *n == AName::Ranges && matches!(v, AVal::Sec(_) | AVal::Listx(_)));
+                    oracle = Some(format!("{which}-{}{w}", if single { "single-" } else { "" }));
+                }
+            }
+        }
+        t
+    };
+    let ut = run("unit", root, dwarf.unit_ranges(&unit));
+    let mut cursor = unit.entries();
+    let _ = cursor.next_dfs();
+    let child = match cursor.next_dfs() {
+        Ok(Some(_)) => cursor.current()?,
+        _ => return Some("err NoChild".into()),
+    };
+    let dt = run("die", die, dwarf.die_ranges(&unit, child));
+    // DW_AT_location as a location list
+    let lt = match child.attr_value(gimli::DW_AT_location) {
+        None => "none".to_string(),
+        Some(v) => match dwarf.attr_locations(&unit, v) {
+            Ok(None) => "none".into(),
+            Err(e) => format!("err {}", rerr(&e)),
+            Ok(Some(mut it)) => {
+                let evs = drain(cap, || it.next()).map(|v| {
+                    v.into_iter()
+                        .map(|x| match x {
+                            Ev::Item(r) => Ev::Item((r.range.begin, r.range.end, r.data.0.slice().to_vec())),
+                            Ev::Error(e) => Ev::Error(e),
+                        })
+                        .collect::<Vec<Ev<Rangeish>>>()
+                });
+                let (t, evs) = render(Ok(evs), cooked_text);
+                if oracle.is_none() {
+                    if let Some(got) = &evs {
+                        oracle = check_yield(c, got).map(|w| format!("loc-{w}"));
+                        // the list the standard designates
+                        let die_loc = die.iter().find(|(n, _)| *n == AName::Loc).map(|(_, v)| *v);
+                        let off = match die_loc {
+                            Some(AVal::Sec(o)) => Some(o),
+                            Some(AVal::Listx(i)) => naive_get_offset(c, secs.loclists, unit.loclists_base.0 as u64, i),
+                            _ => None,
+                        };
+                        if let (None, Some(off)) = (&oracle, off) {
+                            let s = Secs { legacy: secs.loc, v5: secs.loclists };
+                            let (wt, _) = render(real_cooked(Kind::Loc, c, dwo, &s, off as usize, ub.0, secs.addr, ub.1 as usize), cooked_text);
+                            if wt != t {
+                                oracle = Some(format!("loc-list-differs expected={}", wt.replace(' ', "_")));
+                            }
+                        }
+                    }
+                }
+                t
+            }
+        },
+    };
+    let t = format!(
+        "ok {},{},{},{} | unit:{ut} | die:{dt} | loc:{lt}",
+        unit.low_pc, unit.addr_base.0, unit.rnglists_base.0, unit.loclists_base.0
+    );
+    Some(with_oracle(t, oracle))
+}
+
 pub fn handle(op: &str, a: &[&str]) -> Option<String> {
     match (op, a) {
         ("lists-raw", [k, c, dwo, off, legacy, v5]) => {
@@ -681,6 +1149,13 @@ pub fn handle(op: &str, a: &[&str]) -> Option<String> {
             let want = naive_get_address(&c, &sec, base, idx);
             let o = if want != r.ok() { Some(format!("address-differs expected={want:?}").replace(' ', "")) } else { None };
             Some(with_oracle(t, o))
+        }
+        ("lists-die", [c, dwo, root, die, addr, ranges, rnglists, loc, loclists]) => {
+            let (c, dwo) = (cfg(c)?, flag(dwo)?);
+            let (root, die) = (parse_attrs(root)?, parse_attrs(die)?);
+            let (addr, ranges, rnglists, loc, loclists) = (unhex(addr)?, unhex(ranges)?, unhex(rnglists)?, unhex(loc)?, unhex(loclists)?);
+            let secs = DieSecs { addr: &addr, ranges: &ranges, rnglists: &rnglists, loc: &loc, loclists: &loclists };
+            lists_die(&c, dwo, &root, &die, &secs)
         }
         _ => None,
     }
@@ -850,6 +1325,175 @@ fn mutate(rng: &mut Rng, bs: &[u8]) -> Vec<u8> {
     b
 }
 
+
+/// a list section for a unit: (bytes, offsets of the lists inside it, base = end of the header,
+/// number of offset-table slots). DWARF 5: header, offset table, lists; before: just lists.
+fn list_section(g: &mut G, k: Kind, c: &Cfg, dwo: bool, ntbl: u64) -> (Vec<u8>, Vec<u64>, u64, u64) {
+    let (_, coded) = section_format(k, c.enc.version, dwo);
+    let word: usize = if c.enc.format == Format::Dwarf64 { 8 } else { 4 };
+    let nlists = 1 + g.rng.below(3) as usize;
+    let mut lists: Vec<Vec<u8>> = Vec::new();
+    for _ in 0..nlists {
+        let cnt = g.rng.below(4);
+        let ents: Vec<Ent> = (0..cnt).map(|_| g.entry(k, c, coded, ntbl)).collect();
+        lists.push(encode_list(k, c, coded, &ents).unwrap_or_default());
+    }
+    let mut sec = Vec::new();
+    let mut base = 0u64;
+    let mut slots = 0u64;
+    if c.enc.version >= 5 {
+        let hdr = if word == 8 { 20 } else { 12 };
+        sec = g.rng.bytes(hdr);
+        base = hdr as u64;
+        slots = nlists as u64;
+        // offset table: offsets relative to `base`
+        let mut rel = (nlists * word) as u64;
+        for l in &lists {
+            put_uint(&mut sec, c.big, word, rel);
+            rel += l.len() as u64;
+        }
+    } else if g.rng.chance(1, 3) {
+        sec = g.rng.bytes_below(9);
+        base = sec.len() as u64;
+    }
+    let mut offs = Vec::new();
+    for l in &lists {
+        offs.push(sec.len() as u64);
+        sec.extend_from_slice(l);
+    }
+    (sec, offs, base, slots)
+}
+
+fn gen_die(g: &mut G, emit: &mut dyn FnMut(String)) {
+    let c = g.cfg();
+    let s = c.enc.address_size;
+    let dwo = g.rng.chance(1, 3);
+    let (addr, ab, ntbl) = g.table(&c);
+    let (rsec, roffs, rbase, rslots) = list_section(g, Kind::Rng, &c, dwo, ntbl);
+    let (lsec, loffs, lbase, lslots) = list_section(g, Kind::Loc, &c, dwo, ntbl);
+    let v5 = c.enc.version >= 5;
+    let word_max: u64 = if c.enc.format == Format::Dwarf64 { u64::MAX } else { 0xffff_ffff };
+    let addr_val = |g: &mut G| -> AVal {
+        match g.rng.below(10) {
+            0..=4 => AVal::Addr(g.address(s)),
+            5..=7 => AVal::Addrx(g.index(ntbl)),
+            8 => AVal::Udata(g.rng.below(0x100)),
+            _ => *g.rng.pick(&[AVal::Other, AVal::Sec(0), AVal::Listx(0)]),
+        }
+    };
+    let ranges_val = |g: &mut G| -> AVal {
+        match g.rng.below(10) {
+            0..=4 => {
+                let o = *g.rng.pick(&roffs);
+                // a raw DW_AT_ranges offset in a GNU split DWARF v4 unit is relative to the ranges base
+                AVal::Sec(if dwo && !v5 { o.wrapping_sub(rbase) & word_max } else { o })
+            }
+            5..=7 => AVal::Listx(g.index(rslots)),
+            8 => AVal::Sec(g.rng.boundary_u64() & word_max),
+            _ => *g.rng.pick(&[AVal::Other, AVal::Udata(3), AVal::Addr(0)]),
+        }
+    };
+    // root DIE
+    let mut root: Vec<(AName, AVal)> = Vec::new();
+    if g.rng.chance(4, 5) {
+        root.push((AName::Low, addr_val(g)));
+    }
+    if ab != 0 || g.rng.chance(1, 3) {
+        root.push((if v5 || g.rng.chance(1, 2) { AName::ABase } else { AName::GABase }, if g.rng.chance(9, 10) { AVal::Sec(ab as u64) } else { AVal::Udata(ab as u64) }));
+    }
+    // DWARF 5 .dwo units rely on the default base (first header); others say it explicitly
+    let explicit_r = if v5 { !dwo || g.rng.chance(1, 4) } else { rbase != 0 || g.rng.chance(1, 4) };
+    if explicit_r {
+        let b = if g.rng.chance(1, 10) { g.rng.boundary_u64() & word_max } else { rbase };
+        root.push((if v5 { AName::RBase } else { AName::GRBase }, AVal::Sec(b)));
+    }
+    if v5 && (!dwo || g.rng.chance(1, 4)) {
+        root.push((AName::LBase, AVal::Sec(lbase)));
+    }
+    match g.rng.below(4) {
+        0 => root.push((AName::Ranges, ranges_val(g))),
+        1 => root.push((AName::High, if g.rng.chance(1, 2) { AVal::Udata(g.offset(s)) } else { addr_val(g) })),
+        _ => {}
+    }
+    if g.rng.chance(1, 8) {
+        let k = g.rng.below(root.len() as u64 + 1) as usize;
+        root.insert(k, (AName::Other, AVal::Udata(7)));
+    }
+    if g.rng.chance(1, 6) && root.len() > 1 {
+        let i = g.rng.below(root.len() as u64) as usize;
+        let j = g.rng.below(root.len() as u64) as usize;
+        root.swap(i, j);
+    }
+    // child DIE
+    let mut die: Vec<(AName, AVal)> = Vec::new();
+    match g.rng.below(10) {
+        0..=4 => {
+            // low_pc / high_pc
+            let low = addr_val(g);
+            let high = match g.rng.below(8) {
+                0..=2 => AVal::Udata(g.offset(s)),
+                3 => AVal::Udata(0),
+                4 => match low {
+                    AVal::Addr(a) => AVal::Addr(a.wrapping_add(g.rng.below(3)).wrapping_sub(1) & G::ones(s)),
+                    x => x,
+                },
+                5 => AVal::Udata(u64::MAX - g.rng.below(0x20)),
+                _ => addr_val(g),
+            };
+            die.push((AName::Low, low));
+            if g.rng.chance(7, 8) {
+                die.push((AName::High, high));
+            }
+            if g.rng.chance(1, 6) {
+                let last = die.len() - 1;
+                die.swap(0, last);
+            }
+            if g.rng.chance(1, 8) {
+                die.push((AName::Ranges, ranges_val(g)));
+            }
+        }
+        5..=7 => {
+            die.push((AName::Ranges, ranges_val(g)));
+            if g.rng.chance(1, 3) {
+                let k = g.rng.below(2) as usize;
+                die.insert(k, (AName::Low, addr_val(g)));
+            }
+        }
+        8 => {
+            die.push((AName::High, addr_val(g)));
+        }
+        _ => {}
+    }
+    if g.rng.chance(1, 2) {
+        let v = match g.rng.below(8) {
+            0..=3 => AVal::Sec(*g.rng.pick(&loffs)),
+            4..=5 => AVal::Listx(g.index(lslots)),
+            6 => AVal::Sec(g.rng.boundary_u64() & word_max),
+            _ => AVal::Other,
+        };
+        let k = g.rng.below(die.len() as u64 + 1) as usize;
+        die.insert(k, (AName::Loc, v));
+    }
+    if g.rng.chance(1, 10) && !die.is_empty() {
+        let d = die[g.rng.below(die.len() as u64) as usize];
+        die.push(d);
+    }
+    let (ranges, rnglists) = if v5 { (g.rng.bytes_below(5), rsec) } else { (rsec, g.rng.bytes_below(5)) };
+    let (loc, loclists) = if v5 { (g.rng.bytes_below(5), lsec) } else { (lsec, g.rng.bytes_below(5)) };
+    emit(format!(
+        "lists-die {} {} {} {} {} {} {} {} {}",
+        c.text(),
+        dwo as u8,
+        attrs_text(&root),
+        attrs_text(&die),
+        hex(&addr),
+        hex(&ranges),
+        hex(&rnglists),
+        hex(&loc),
+        hex(&loclists)
+    ));
+}
+
 pub fn gen(ctx: &Ctx, emit: &mut dyn FnMut(String)) {
     let mut rng = ctx.rng(8);
     let n = ctx.n(9000, 400_000);
@@ -921,6 +1565,9 @@ pub fn gen(ctx: &Ctx, emit: &mut dyn FnMut(String)) {
             let ks = if k == Kind::Rng { "rng" } else { "loc" };
             emit(format!("lists-raw {ks} {} {} {off} {} {}", c2.text(), dwo as u8, hex(&legacy), hex(&v5)));
             emit(format!("lists-cooked {ks} {} {} {off} {} {} {base} {} {ab}", c2.text(), dwo as u8, hex(&legacy), hex(&v5), hex(&addr)));
+        }
+        if i % 2 == 0 {
+            gen_die(&mut g, emit);
         }
         // table lookups
         if i % 4 == 0 {
